@@ -546,6 +546,63 @@ func C12(c *core.Ctx) {
 							walk(a, d+1)
 						}
 					}
+				case *ssa.UnOp:
+					// the list lives in a variable cell (captured by a local closure such as
+					// addUsars := func(rs) { usars = append(usars, rs...) }): everything ever stored there
+					cell := x.X
+					if fv, isFV := cell.(*ssa.FreeVar); isFV {
+						if b, ok := freeVarCell(fv); ok {
+							cell = b
+						}
+					}
+					al, isAl := cell.(*ssa.Alloc)
+					if !isAl {
+						return
+					}
+					for _, r := range *al.Referrers() {
+						switch y := r.(type) {
+						case *ssa.Store:
+							if y.Addr == ssa.Value(al) {
+								walk(y.Val, d+1)
+							}
+						case *ssa.MakeClosure:
+							cf, _ := y.Fn.(*ssa.Function)
+							if cf == nil {
+								continue
+							}
+							for i, b := range y.Bindings {
+								if b != ssa.Value(al) || i >= len(cf.FreeVars) {
+									continue
+								}
+								for _, fr := range *cf.FreeVars[i].Referrers() {
+									if st, ok := fr.(*ssa.Store); ok && st.Addr == ssa.Value(cf.FreeVars[i]) {
+										walk(st.Val, d+1)
+									}
+								}
+							}
+						}
+					}
+				case *ssa.Parameter:
+					// parameter of a local closure: the arguments of its calls
+					cf := x.Parent()
+					if cf == nil || cf.Parent() == nil {
+						return
+					}
+					idx := -1
+					for i, pp := range cf.Params {
+						if pp == x {
+							idx = i
+						}
+					}
+					core.Instrs(cf.Parent(), func(in ssa.Instruction) {
+						cl, ok := in.(*ssa.Call)
+						if !ok || idx < 0 || idx >= len(cl.Call.Args) {
+							return
+						}
+						if mc, ok := core.Unwrap(cl.Call.Value).(*ssa.MakeClosure); ok && mc.Fn == ssa.Value(cf) {
+							walk(cl.Call.Args[idx], d+1)
+						}
+					})
 				case *ssa.Extract:
 					if cl, ok := x.Tuple.(*ssa.Call); ok {
 						if f := core.Callee(cl); f != nil {
@@ -810,6 +867,9 @@ func checkMarkLoop(c *core.Ctx, fn *ssa.Function, mark int64, name string) {
 			}
 			n++
 			okRet := r.Results[0] == reports && markSt != nil && loopHeaderOf(markSt).Dominates(r.Block()) && core.InstrDominates(drv, markSt)
+			if !okRet && r.Results[0] == reports && markCall != nil {
+				okRet = core.InstrDominates(markCall, r) && core.InstrDominates(drv, markCall)
+			}
 			c.Check("R2", fmt.Sprintf("mark:%s:%s#%d", fn.Name(), name, n), r.Pos(), okRet,
 				"the reports returned are the driver's, each OR-ed with "+name+" by a loop that every path to this return passes")
 		})
@@ -898,4 +958,25 @@ func emissionFn(p *core.Program, handler, ies string) (*ssa.Function, map[*ssa.P
 		}
 	}
 	return helper, env
+}
+
+// freeVarCell returns the variable cell (Alloc in the enclosing function) a free variable is bound to.
+func freeVarCell(fv *ssa.FreeVar) (ssa.Value, bool) {
+	fn := fv.Parent()
+	if fn == nil || fn.Parent() == nil {
+		return nil, false
+	}
+	idx := -1
+	for i, v := range fn.FreeVars {
+		if v == fv {
+			idx = i
+		}
+	}
+	var out ssa.Value
+	core.Instrs(fn.Parent(), func(in ssa.Instruction) {
+		if mc, ok := in.(*ssa.MakeClosure); ok && mc.Fn == ssa.Value(fn) && idx >= 0 && idx < len(mc.Bindings) {
+			out = mc.Bindings[idx]
+		}
+	})
+	return out, out != nil
 }
